@@ -37,6 +37,7 @@ structure PassT where
   ruleMap : Array (List Nat)     -- per success state: rule numbers in table order
   rules : Array Rule
   reverseDir : Bool := false     -- `m_isReverseDir` (bit 5 of the pass flags): the pass runs against the font's direction
+  pconstraint : List Nat := []   -- the bytecode of the pass constraint (`m_cPConstraint`), empty = none
   deriving Repr, Inhabited
 
 def PassT.successStart (p : PassT) : Nat := p.numStates - p.numSuccess
@@ -325,14 +326,34 @@ def runPass (p : PassT) (c : Ctx) (fuel : Nat) : Except String (Option Ctx) :=
 copy in the slot is reset by `setGlyph` and copied with the glyph id, so it is always this value) -/
 def isMark (c : Ctx) (seg : Seg) (i : Nat) : Bool := Vm.i8 (glyphAttr c (seg.get i).gid c.aBidi) = 16
 
-/-- the direction decision of `Silf::runGraphite` for one pass (no bidi pass: `lbidi == 0xFF`) and the reversal at the top of
-`Pass::runGraphite`: `reverse = seg->currdir() != ((m_dir & 1) ^ pass.reverseDir())`; nothing happens on an empty segment -/
+/-- `Pass::testPassConstraint`: the pass constraint is run on the first slot of the stream, in a slot map that holds just that slot
+(`reset(*first, 0); pushSlot(first)`: size 1, no context, `map` at cell 1).  `(passes, machine status)`; a pass without a constraint
+passes and leaves the status alone. -/
+def testPassConstraint (p : PassT) (c : Ctx) (s0 : Nat) : Except String (Bool × Status) :=
+  if p.pconstraint.isEmpty then .ok (true, .finished) else
+  match mkCode p.pconstraint false with
+  | none => .error "undecodable pass constraint"
+  | some k =>
+    let smap0 : Array (Option Nat) := ((Array.replicate (MAX_SLOTS + 2) none).setIfInBounds 0 (c.seg.get s0).prev).setIfInBounds 1 (some s0)
+    match runConstraint k (c.resetMap smap0 1 0) 1 with
+    | .error w => .error w
+    | .ok (ret, st) => .ok (decide (ret ≠ 0) && decide (st = .finished), st)
+
+/-- the direction decision of `Silf::runGraphite` for one pass (no bidi pass: `lbidi == 0xFF`), then `Pass::runGraphite`: the pass
+constraint decides whether the pass runs at all – it is tested on the stream as it stands, before the reversal –, then the reversal
+`reverse = seg->currdir() != ((m_dir & 1) ^ pass.reverseDir())`, then the rules; nothing happens on an empty segment.  A pass
+constraint that leaves the machine in a state other than `finished` makes `Silf::runGraphite` give up (`none`). -/
 def runPassDir (p : PassT) (c : Ctx) (fuel : Nat) : Except String (Option Ctx) :=
   match c.seg.first with
   | none => .ok (some c)
-  | some _ =>
-    let reverse := c.seg.currdir != ((c.dir % 2 == 1) != p.reverseDir)
-    runPass p (if reverse then c.withSeg (c.seg.reverseSlots (isMark c c.seg)) else c) fuel
+  | some s0 =>
+    match testPassConstraint p c s0 with
+    | .error w => .error w
+    | .ok (ok, st) =>
+      if st ≠ .finished then .ok none else
+      if !ok then .ok (some c) else
+      let reverse := c.seg.currdir != ((c.dir % 2 == 1) != p.reverseDir)
+      runPass p (if reverse then c.withSeg (c.seg.reverseSlots (isMark c c.seg)) else c) fuel
 
 /-- one call of `Silf::runGraphite(seg, lo, hi)` (no bidi pass): a fresh slot map and machine, `maxSize = slotCount *
 MAX_SEG_GROWTH_FACTOR`; after each pass the segment may not have outgrown that limit -/
